@@ -67,7 +67,10 @@ def judge(region, toks):
     from cxxheaderparser.simple import parse_string
     from cxxheaderparser.errors import CxxParseError
 
-    base = parse_string(render(region, []))
+    try:
+        base = parse_string(render(region, []))
+    except CxxParseError as e:
+        return f"the program with an empty region does not parse: {e}"
     try:
         got = parse_string(render(region, toks))
     except CxxParseError as e:
